@@ -778,8 +778,11 @@ func runC12(c *CaseCtx) (res CaseResult) {
 	if refRedef.Func != nil && refRedef.Err == nil {
 		sharedRF = refRedef.Func
 	}
+	var rfDesc sync.Map
 	rfArgs := func(call int, lr *rand.Rand) []am.Arg {
 		var a []am.Arg
+		var desc []string
+		defer func() { rfDesc.Store(call, strings.Join(desc, " ")) }()
 		for i, v := range sharedRF.Input().Values() {
 			ti := typeIndex(v.Type)
 			if ti < 0 {
@@ -792,6 +795,7 @@ func runC12(c *CaseCtx) (res CaseResult) {
 			}
 			id := w.FreshInput(call, 500+i, Label{Name: vv.Name, Type: conc, Sub: v.Subtype})
 			vv.Value = mk(conc, id)
+			desc = append(desc, fmt.Sprintf("%s:%s/%s=%s#%d", v.Name, typeName(ti), v.Subtype, typeName(conc), id))
 			a = append(a, vv.Arg())
 		}
 		return a
@@ -882,6 +886,7 @@ func runC12(c *CaseCtx) (res CaseResult) {
 	res.Evals += len(recs)
 	res.obs("concurrent_operations", int64(len(recs)))
 	res.obs(fmt.Sprintf("gomaxprocs.%d", procs), 1)
+	var seqRF map[string]bool
 	for _, rec := range recs {
 		res.obs("op."+rec.op, 1)
 		cls := rec.o.Class
@@ -907,8 +912,35 @@ func runC12(c *CaseCtx) (res CaseResult) {
 		}
 		// (the outcome of Redefine itself depends on map order even on these
 		// scenarios, so no sequential singleton exists to compare with)
+		if ref != "" && cls != ref && rec.op == "call-redefined" {
+			// Nothing guarantees that a call of the redefined function has ONE
+			// possible outcome (Redefine drops subtypes, a declared input may
+			// replace a baked-in value of the same name; which derivation is
+			// found then follows map order). The concurrent outcome is only
+			// wrong if no sequential execution of the same call returns it.
+			if seqRF == nil {
+				seqRF = map[string]bool{}
+				for k := 0; k < 400; k++ {
+					o := DoCall(w, sharedRF, rfArgs(800000+k, r))
+					c := o.Class
+					if c != ClsPanic {
+						c = classify(w, o.Err)
+					}
+					seqRF[c] = true
+				}
+				res.obs("redefined_call_outcome_sets_sampled_sequentially", 1)
+			}
+			if seqRF[cls] {
+				res.obs("concurrent_redefined_outcomes_reproduced_sequentially", 1)
+				ref = ""
+			}
+		}
 		if ref != "" && cls != ref {
-			res.violate("C12", "concurrent-outcome-differs", fmt.Sprintf("concurrent %s ended %s, the sequential reference %s", rec.op, cls, ref), det(firstLine(errStr(rec.o.Err))))
+			info := firstLine(errStr(rec.o.Err))
+			if d, ok := rfDesc.Load(rec.call); ok && rec.op == "call-redefined" {
+				info += " | supplied: " + d.(string) + " | error: " + errStr(rec.o.Err)
+			}
+			res.violate("C12", "concurrent-outcome-differs", fmt.Sprintf("concurrent %s ended %s, the sequential reference %s", rec.op, cls, ref), det(info))
 		}
 		// isolation of the returned value
 		if rec.op == "call" && rec.o.Err == nil && rec.o.Res.Len() > 0 {
